@@ -3,3 +3,4 @@ import IncrVerif.MapOps.SymDiff
 import IncrVerif.MapOps.SymDiffRef
 import IncrVerif.Proofs.SymDiff
 import IncrVerif.Props.C18
+import IncrVerif.Props.C09
